@@ -68,8 +68,14 @@ func (f *Random) Call(s *slip.Scope, args slip.List, depth int) (result slip.Obj
 	}
 	switch limit := args[0].(type) {
 	case slip.Fixnum:
+		if limit <= 0 {
+			slip.TypePanic(s, depth, "limit", limit, "positive real")
+		}
 		result = slip.Fixnum(rs.Int63() % int64(limit))
 	case *slip.Bignum:
+		if (*big.Int)(limit).Sign() <= 0 {
+			slip.TypePanic(s, depth, "limit", limit, "positive real")
+		}
 		var z big.Int
 		result = (*slip.Bignum)(z.Rand(rand.New(rs), (*big.Int)(limit)))
 	case slip.SingleFloat:
